@@ -18,8 +18,11 @@ The model's atomic steps are exactly these sections:
                                   steps: between a holder's release and the moment a parked waiter
                                   owns the mutex, the mutex is free for everybody (sync.Mutex does
                                   not hand ownership over in normal mode) – the hand-off window
-  * try inner        (`try`)      `nameLock.TryLock()`: never blocks; a FAILED attempt keeps its
-                                  reference (the code never gives it back: ghost field `leaked`)
+  * try inner        (`try`)      `nameLock.TryLock()`: never blocks
+  * give back        (`drop`)     a FAILED `TryLock` takes `Locker.mu` again, `waiters--`, deletes the
+                                  entry at 0 (since the `fix:` commit FIXL; before it – variant
+                                  `leakyTry` – the reference was never given back and the entry
+                                  stayed in the map for ever: ghost field `leaked`)
   * release + drop   (`unlock`)   under `Locker.mu`: look the entry up BY NAME (`ErrNoSuchLock`
                                   when absent), unlock ITS inner mutex, `waiters--`, delete the
                                   entry at 0
@@ -33,7 +36,8 @@ theorems of Props/C16Locker.lean hold for every number of sessions and every int
 The grant policy of Go's writer-preferring RWMutex only removes interleavings; it is used by the
 driver engine (`Driver/LockerEngine.lean`) to predict the scripted episodes, not by the theorems.
 
-`Variant.tryRefOnCreate` is the variant "TryLock takes a reference only when it creates the
+`Variant.ofTree` is the one-line switch that says which variant the tree has (the driver engine runs
+it).  `Variant.leakyTry` is the code before FIXL.  `Variant.tryRefOnCreate` is the variant "TryLock takes a reference only when it creates the
 entry and tries the inner mutex inside the `Locker.mu` section" (a plausible repair of the
 reference leak of a failed TryLock); `Props/C16Locker.lean` shows by a three-party schedule that
 it breaks the invariant.
@@ -63,27 +67,34 @@ inductive Phase
   | wantR (k o : Nat)
   /-- reference taken, `nameLock.TryLock()` not yet called -/
   | wantT (k o : Nat)
+  /-- `nameLock.TryLock()` has failed, the reference is not yet given back -/
+  | failT (k o : Nat)
   | holdW (k o : Nat)
   | holdR (k o : Nat)
   deriving DecidableEq, Repr, Inhabited
 
 def Phase.obj : Phase → Option Nat
   | .idle => none
-  | .wantW _ o | .wantR _ o | .wantT _ o | .holdW _ o | .holdR _ o => some o
+  | .wantW _ o | .wantR _ o | .wantT _ o | .failT _ o | .holdW _ o | .holdR _ o => some o
 
 def Phase.key : Phase → Option Nat
   | .idle => none
-  | .wantW k _ | .wantR k _ | .wantT k _ | .holdW k _ | .holdR k _ => some k
+  | .wantW k _ | .wantR k _ | .wantT k _ | .failT k _ | .holdW k _ | .holdR k _ => some k
 
 /-- the session has a reference on `lockCtr` `o` -/
 def Phase.uses (o : Nat) (p : Phase) : Bool := p.obj == some o
 
 inductive Variant
-  /-- the code as it is -/
+  /-- the code as it is: a failed TryLock gives its reference back -/
   | current
+  /-- the code before the `fix:` commit FIXL: a failed TryLock keeps its reference for ever -/
+  | leakyTry
   /-- TryLock: `inc` only when the entry is created, `nameLock.TryLock()` inside the section -/
   | tryRefOnCreate
   deriving DecidableEq, Repr
+
+/-- THE SWITCH: the variant the tree has (`.leakyTry` before the `fix:` commit FIXL) -/
+def Variant.ofTree : Variant := .current
 
 structure State where
   /-- `Locker.locks`: name ↦ id of the `lockCtr` -/
@@ -119,6 +130,8 @@ inductive Act
   | startT (k : Nat)
   | acquire
   | try
+  /-- a failed TryLock gives its reference back -/
+  | drop
   | unlock
   deriving DecidableEq, Repr
 
@@ -151,6 +164,15 @@ def unlockStep (s : State) (i k o : Nat) (w : Bool) : State × Outcome :=
                                map := if x'.refs = 0 then updMap s.map k none else s.map }
     (setPhase s' i .idle, if o' = o then .released else .foreign)
 
+/-- the section in which a failed `TryLock` gives its reference on `o` back: `waiters--`, and the
+    entry is deleted at 0 (when the map still has `o` under `k`) -/
+def dropStep (s : State) (i k o : Nat) : State :=
+  let x := s.heap o
+  let x' : Obj := { x with refs := x.refs - 1 }
+  let s' : State := { s with heap := updHeap s.heap o (fun _ => x'),
+                             map := if x'.refs = 0 ∧ s.map k = some o then updMap s.map k none else s.map }
+  setPhase s' i .idle
+
 /-- Session `i` performs `a`; `none` = not enabled (wrong phase, or the inner mutex is not
     available). -/
 def step (v : Variant) (s : State) (i : Nat) (a : Act) : Option (State × Outcome) :=
@@ -159,7 +181,7 @@ def step (v : Variant) (s : State) (i : Nat) (a : Act) : Option (State × Outcom
   | some .idle, .startR k => let (s', o) := takeRef s k; some (setPhase s' i (.wantR k o), .none)
   | some .idle, .startT k =>
     match v with
-    | .current => let (s', o) := takeRef s k; some (setPhase s' i (.wantT k o), .none)
+    | .current | .leakyTry => let (s', o) := takeRef s k; some (setPhase s' i (.wantT k o), .none)
     | .tryRefOnCreate =>
       -- one section: reference only on creation, then `nameLock.TryLock()`
       let (s', o) := match s.map k with
@@ -179,9 +201,13 @@ def step (v : Variant) (s : State) (i : Nat) (a : Act) : Option (State × Outcom
   | some (.wantT k o), .try =>
     if (s.heap o).free then
       some (setPhase { s with heap := updHeap s.heap o (fun x => { x with writer := some i }) } i (.holdW k o), .tryOk)
+    else if v = .current then
+      -- the reference is given back in a section of its own
+      some (setPhase s i (.failT k o), .tryFailed)
     else
       -- the reference is never given back
       some (setPhase { s with heap := updHeap s.heap o (fun x => { x with leaked := x.leaked + 1 }) } i .idle, .tryFailed)
+  | some (.failT k o), .drop => some (dropStep s i k o, .none)
   | some (.holdW k o), .unlock => some (unlockStep s i k o true)
   | some (.holdR k o), .unlock => some (unlockStep s i k o false)
   | _, _ => none
